@@ -375,22 +375,55 @@ func drain[T any](mk func() ociregistry.Seq[T], k int, show func(T) string, isZe
 }
 
 func runQuery(r ociregistry.Interface, q queryDesc, start string, k int) []entry {
+	return runQueryMany(r, q, start, []int{k})[0]
+}
+
+// once makes the listing call at most once: the Seq value it returned is handed out again, so
+// that successive consumers iterate the SAME sequence value (an iteration must not depend on
+// what an earlier iteration of that value did).
+func once[T any](mk func() ociregistry.Seq[T]) func() ociregistry.Seq[T] {
+	var seq ociregistry.Seq[T]
+	made := false
+	return func() ociregistry.Seq[T] {
+		if !made {
+			seq = mk()
+			made = true
+		}
+		return seq
+	}
+}
+
+// runQueryMany makes the listing call once and iterates the sequence it returned with each
+// consumer of ks in turn.
+func runQueryMany(r ociregistry.Interface, q queryDesc, start string, ks []int) [][]entry {
 	ctx := context.Background()
+	var logs [][]entry
 	switch q.Kind {
 	case "repos":
-		return drain(func() ociregistry.Seq[string] { return r.Repositories(ctx, start) }, k, func(s string) string { return s }, func(s string) bool { return s == "" })
+		mk := once(func() ociregistry.Seq[string] { return r.Repositories(ctx, start) })
+		for _, k := range ks {
+			logs = append(logs, drain(mk, k, func(s string) string { return s }, func(s string) bool { return s == "" }))
+		}
 	case "tags":
-		return drain(func() ociregistry.Seq[string] { return r.Tags(ctx, q.Repo, start) }, k, func(s string) string { return s }, func(s string) bool { return s == "" })
+		mk := once(func() ociregistry.Seq[string] { return r.Tags(ctx, q.Repo, start) })
+		for _, k := range ks {
+			logs = append(logs, drain(mk, k, func(s string) string { return s }, func(s string) bool { return s == "" }))
+		}
 	case "refs":
-		return drain(func() ociregistry.Seq[ociregistry.Descriptor] {
+		mk := once(func() ociregistry.Seq[ociregistry.Descriptor] {
 			return r.Referrers(ctx, q.Repo, ociregistry.Digest(theSubject), "")
-		}, k,
-			func(d ociregistry.Descriptor) string { return string(d.Digest) },
-			func(d ociregistry.Descriptor) bool {
-				return d.Digest == "" && d.Size == 0 && d.MediaType == "" && d.ArtifactType == "" && len(d.Annotations) == 0
-			})
+		})
+		for _, k := range ks {
+			logs = append(logs, drain(mk, k,
+				func(d ociregistry.Descriptor) string { return string(d.Digest) },
+				func(d ociregistry.Descriptor) bool {
+					return d.Digest == "" && d.Size == 0 && d.MediaType == "" && d.ArtifactType == "" && len(d.Annotations) == 0
+				}))
+		}
+	default:
+		panic("unknown query kind " + q.Kind)
 	}
-	panic("unknown query kind " + q.Kind)
+	return logs
 }
 
 // ---------------------------------------------------------------- Coq terms
@@ -485,6 +518,35 @@ func runCase(in input) (coq string, obs []observed, panicMsg string) {
 		runs = append(runs, fmt.Sprintf("(%d, %s)", k, coqLog(log)))
 		if len(log) > 0 && log[len(log)-1].Bad != "" {
 			break // a runaway or a panic: the other consumers would only repeat it
+		}
+	}
+	// the same sequence value iterated again: after a consumer that declined at its k-th call (the
+	// smallest and the largest positive k of the case; or after a complete pass) a complete pass
+	// must again be the whole listing.  The runs are judged like any other run with that consumer.
+	bad := len(obs) > 0 && len(obs[len(obs)-1].Log) > 0 && obs[len(obs)-1].Log[len(obs[len(obs)-1].Log)-1].Bad != ""
+	if !bad {
+		firsts := []int{0}
+		lo, hi := 0, 0
+		for _, k := range in.Ks {
+			if k > 0 && (lo == 0 || k < lo) {
+				lo = k
+			}
+			if k > hi {
+				hi = k
+			}
+		}
+		if hi > 0 {
+			firsts = append(firsts, hi)
+		}
+		if lo > 0 && lo != hi {
+			firsts = append(firsts, lo)
+		}
+		for _, k1 := range firsts {
+			logs := runQueryMany(reg, in.Query, start, []int{k1, 0})
+			for i, k := range []int{k1, 0} {
+				obs = append(obs, observed{k, logs[i]})
+				runs = append(runs, fmt.Sprintf("(%d, %s)", k, coqLog(logs[i])))
+			}
 		}
 	}
 	coq = fmt.Sprintf("{| c_stack := %s; c_query := %s; c_start := %s; c_runs := %s |}",
